@@ -276,7 +276,14 @@ where
 /// is_finite / is_zero on every position
 fn finite_zero<F: Flt>(d: &mut Draw) -> Outcome {
     let bad = d.pick(&[F::nan(), F::infinity(), F::neg_infinity()]);
-    let vals: Vec<F> = (0..16).map(|_| F::finite_from(d)).collect();
+    // finite values, including ones whose sums or products overflow
+    let big = F::max_value();
+    let vals: Vec<F> = (0..16)
+        .map(|_| match d.int(0, 5) {
+            0 => d.pick(&[big, -big, big * F::of(0.75), -big * F::of(0.75), big * F::of(0.5)]),
+            _ => F::finite_from(d),
+        })
+        .collect();
     d.note("components", &vals);
     macro_rules! fin {
         ($T:ty, $call:expr) => {{
